@@ -2755,6 +2755,9 @@ impl<'a> Visitor<'a, '_, Error> for JSONValidator<'a> {
       Value::Number(n) => {
         if is_ident_uint_data_type(self.state.cddl, ident) && n.is_u64() {
           return Ok(());
+        } else if let Token::UINT = lookup_ident(ident.ident) {
+          // `uint` itself admits nothing but unsigned integers: do not fall through
+          // to the generic integer check below, which would accept -1
         } else if is_ident_nint_data_type(self.state.cddl, ident) {
           if let Some(n) = n.as_i64() {
             if n.is_negative() {
